@@ -50,11 +50,11 @@ static inline std::string trace_str(const uint32_t *t, size_t n) {
   return s;
 }
 static inline const char *strategy_name(int s) {
-  static const char *n[] = {"random", "sticky", "pct", "starve", "lowfirst", "highfirst", "trace"};
-  return (s >= 0 && s <= 6) ? n[s] : "?";
+  static const char *n[] = {"random", "sticky", "pct", "starve", "lowfirst", "highfirst", "trace", "rr", "pfrr"};
+  return (s >= 0 && s <= 8) ? n[s] : "?";
 }
 static inline int strategy_from(const std::string &s) {
-  for (int i = 0; i <= 6; i++) if (s == strategy_name(i)) return i;
+  for (int i = 0; i <= 8; i++) if (s == strategy_name(i)) return i;
   return ST_RANDOM;
 }
 static inline std::string hex64(uint64_t v) { char b[20]; snprintf(b, sizeof b, "%016llx", (unsigned long long)v); return b; }
@@ -71,7 +71,9 @@ static inline void draw_sched(Prng &r, SimConfig &c, int nthreads, int expected_
   if (x < 40) { c.strategy = ST_PCT; c.pct_depth = (int)r.range(1, 4); }
   else if (x < 70) { c.strategy = ST_STICKY; static const int dens[] = {2, 4, 8, 16}; c.sticky_den = dens[r.below(4)]; }
   else if (x < 80) { c.strategy = ST_STARVE; c.victim = (int)r.below((uint64_t)nthreads); }
-  else if (x < 90) c.strategy = ST_RANDOM;
+  else if (x < 86) c.strategy = ST_RANDOM;
+  else if (x < 90) c.strategy = ST_RR;
+  else if (x < 94) c.strategy = ST_PFRR;
   else c.strategy = r.chance(1, 2) ? ST_LOWFIRST : ST_HIGHFIRST;
   c.spurious_budget = r.chance(1, 2) ? 0 : (int)r.range(1, 3);
   c.spurious_permille = (int)r.range(5, 80);
@@ -101,25 +103,17 @@ static inline void print_log(FILE *f) {
 }
 
 // ---- death callback: when a sanitizer kills the process, leave the spec and the decision trace of
-// the run in flight on stdout so that the supervisor can minimise and replay it -------------------
-extern "C" void __sanitizer_set_death_callback(void (*)(void)) __attribute__((weak));
+// the run in flight on the result fd so that the supervisor can minimise and replay it.  The callback
+// itself lives in sim/simthread.cpp (uninstrumented); the harness only keeps its inputs current. ----
+#include <sys/resource.h>
 static std::string *g_death_spec = nullptr;
 static unsigned long long g_death_run = 0;
 static int g_death_fd = 1;
-static void death_cb() {
-  if (!g_death_spec) return; // also: forked reference children clear this
-  size_t tl; const uint32_t *t = sim_trace(&tl);
-  std::string tr = trace_str(t, tl);
-  char head[256];
-  int n = snprintf(head, sizeof head, "\n{\"partial\":%llu,\"steps\":%llu,\"spec\":", g_death_run, (unsigned long long)sim_now());
-  std::string line = std::string(head, (size_t)n) + jstr(*g_death_spec) + ",\"trace\":\"" + tr + "\"}\n";
-  ssize_t w = write(g_death_fd, line.data(), line.size()); (void)w;
-}
-#include <sys/resource.h>
+static inline void death_info_update() { sim_set_death_info(g_death_spec ? g_death_spec->c_str() : nullptr, g_death_run, g_death_fd); }
 static inline void install_death_cb(std::string *spec) {
   struct rlimit rl = {0, 0}; setrlimit(RLIMIT_CORE, &rl); // never dump a sanitizer-sized core
   g_death_spec = spec;
-  if (&__sanitizer_set_death_callback) __sanitizer_set_death_callback(death_cb);
+  sim_install_death_cb();
 }
 
 // ---- address-space layout: fixed, so that two processes executing the same history see the same
